@@ -127,22 +127,23 @@ def run(seed, client_options=None, server_options=None, identity=None, trust=Non
     return res
 
 
-def make_ca(name="aq throw-away CA"):
-    """self-signed CA certificate (EC P-256); returns (cert, key)"""
+def make_ca(name="aq throw-away CA", issuer=None):
+    """CA certificate (EC P-256): self-signed, or an intermediate signed by issuer=(cert, key); returns (cert, key)"""
     from cryptography import x509
     from cryptography.hazmat.primitives import hashes
     from cryptography.hazmat.primitives.asymmetric import ec
     key = ec.generate_private_key(ec.SECP256R1())
     now = datetime.datetime.now(datetime.timezone.utc)
     subject = x509.Name([x509.NameAttribute(x509.NameOID.COMMON_NAME, name)])
-    cert = (x509.CertificateBuilder().subject_name(subject).issuer_name(subject).public_key(key.public_key())
+    cert = (x509.CertificateBuilder().subject_name(subject)
+            .issuer_name(subject if issuer is None else issuer[0].subject).public_key(key.public_key())
             .serial_number(x509.random_serial_number()).not_valid_before(now - datetime.timedelta(days=1))
             .not_valid_after(now + datetime.timedelta(days=10))
             .add_extension(x509.BasicConstraints(ca=True, path_length=None), critical=True)
             .add_extension(x509.KeyUsage(digital_signature=True, key_cert_sign=True, crl_sign=True, content_commitment=False,
                                          key_encipherment=False, data_encipherment=False, key_agreement=False,
                                          encipher_only=False, decipher_only=False), critical=True)
-            .sign(key, hashes.SHA256()))
+            .sign(key if issuer is None else issuer[1], hashes.SHA256()))
     return cert, key
 
 
